@@ -72,6 +72,11 @@ ASSUMPTIONS = [
     "the known finding is recognised only when the result equals, within 1e-9, the matrix computed with the unweighted vertex degree; any other deviation in the same input class has its own key",
     "empty edges (order -1) occur in ~6% of the hypergraphs for all functions except the normalized Laplacian",
     "the `weight` callback of incidence_matrix is not part of the statement and is left at its default",
+    "argument types: order, s and the elements of orders are passed as Python int (about 5/8 of the calls), np.int64, np.int32, np.intp or (for 0 / 1) Python bool; "
+    "multiorder weights also as np.float64 / np.float32 / np.int64 / bool; the flags sparse / weighted / rescale_per_node / normalized as np.bool_ in 8% of the calls; the oracle uses the plain values. "
+    "A failure whose result differs from the same call with plain Python arguments gets the trigger tag 'numpy-or-bool-argument'",
+    "adjacency_tensor with a NumPy-integer order raises TypeError('Expected int as r') on the unchanged tree whenever an edge of that order exists (itertools.permutations refuses numpy integers); "
+    "the docstring says `order : int`, so this loud refusal is counted as a rejection (narrowly: that function, that message, a numpy order) and the call is repeated with a Python int",
 ]
 CASE_TIMEOUT = 120
 
@@ -107,6 +112,10 @@ def floors(tier):
         "adjacency:s>1-and-count>=s": 30,
         "normalized:weighted=True,zero-weight-present": 25, "normalized:weighted=True,numpy-scalar-weights": 15,
         "stale:completed": 50, "stale:members-changed": 25,
+        "argtype:order:numpy.int64": 3000, "argtype:order:numpy.int32": 1500, "argtype:order:builtins.bool": 600,
+        "argtype:s:numpy.int64": 2000, "argtype:s:numpy.int32": 1000, "argtype:s:builtins.bool": 300,
+        "argtype:orders:numpy.int64": 800, "argtype:orders:numpy.int32": 400, "argtype:orders:builtins.bool": 100,
+        "argtype:weights:numpy.float64": 800, "argtype:weights:numpy.int64": 200, "argtype:sparse:numpy.bool": 1000,
         **{f"stale:first-edit:{m}": 8 for m in MUTATIONS},
     })
     f.update({f"labels:{k}": 15 for k in LABEL_KINDS})
@@ -128,6 +137,7 @@ def _node_pool(rng, kind):
 WEIGHT_KINDS = ("none", "unit", "non-unit", "zero-some", "partial", "numpy", "non-unit", "zero-some")
 MUTATIONS = ("add_node_to_edge", "remove_node_from_edge", "set-weight", "readd-same-id")
 KNOWN_CLAUSE = "not-textbook-or-not-PSD"
+FLAGS = ("sparse", "weighted", "rescale_per_node", "normalized")
 
 
 def draw_weights(rng, wk, edges):
@@ -334,6 +344,13 @@ def node_square(M, rowdict, truth, exp, tol, integer_zero_ok=True):
     return None
 
 
+def results_equal(r1, r2):
+    if len(r1) != len(r2):
+        return False
+    a, b = dense(r1[0]), dense(r2[0])
+    return a.shape == b.shape and np.allclose(a, b, rtol=0, atol=1e-12, equal_nan=True) and tuple(r1[1:]) == tuple(r2[1:])
+
+
 def lam_min(M):
     if M.shape[0] == 0:
         return 0.0
@@ -357,18 +374,88 @@ class Battery:
         self.struct = (tuple(map(repr, self.t.nodes)), tuple((repr(e), tuple(sorted(map(repr, m)))) for e, m in self.t.mem.items()))
         self.failed = set()
         self.failed_other = set()
+        self.last = None
+        self.nfail = 0  # failures since the last sparse/dense comparison: consequences of one failure are not reported again
+        self.call_failed = False
 
     def witness(self, call):
         return f"{call}\non {snap.pretty(self.H)}\n({self.desc})"
 
     def fire(self, fn, trig, clause, call, text):
+        if self.last is not None and clause != KNOWN_CLAUSE:
+            # did the numpy / bool argument matter?  same call with plain Python arguments: a different result = another mechanism
+            f, kw, r, typed = self.last
+            self.last = None
+            try:
+                differs = not results_equal(r, f(self.H, **kw, index=True))
+            except Exception:
+                differs = True
+            if differs:
+                trig = f"{trig},numpy-or-bool-argument"
+                text = f"{text}\n(arguments passed as {typed}; plain Python arguments give a different result)"
         if self.tag and clause != KNOWN_CLAUSE and fn not in self.untagged:  # the known defect is the same mechanism before and after an edit
             trig = f"{trig},{self.tag}"
         key = f"{fn}|{trig}|{clause}"
+        self.nfail += 1
+        self.call_failed = True
         self.failed.add(fn)
         if clause != KNOWN_CLAUSE:
             self.failed_other.add(fn)
         self.mon.fail(key, f"{call}: {text}", self.witness(call))
+
+    # -- argument types ---------------------------------------------------------------
+    def cast_int(self, x):
+        """An integer option as Python int (5/8 or 5/9), np.int64 / np.int32 / np.intp, or Python bool when it is 0 or 1."""
+        if x is None or isinstance(x, bool):
+            return x
+        pool = [int] * 5 + [np.int64, np.int32, np.intp] + ([bool] if x in (0, 1) else [])
+        return self.rng.choice(pool)(x)
+
+    def cast_weight(self, x):
+        r = self.rng.random()
+        if r < 0.6:
+            return x
+        if r < 0.85:
+            return np.float64(x)
+        if isinstance(x, int):
+            return np.int64(x) if r < 0.95 or x not in (0, 1) else bool(x)
+        return np.float32(x) if float(np.float32(x)) == x else np.float64(x)
+
+    def invoke(self, f, **kw):
+        """f(H, **kw, index=True) with the integer-like options (order, s, elements of orders / weights) and, now and then, the
+        flags passed as numpy scalars or Python bool.  The oracle keeps using the plain values in `kw`."""
+        ckw, typed = {}, []
+        for k, v in kw.items():
+            if k in ("order", "s"):
+                c = self.cast_int(v)
+            elif k == "orders":
+                c = [self.cast_int(x) for x in v]
+            elif k == "weights":
+                c = [self.cast_weight(x) for x in v]
+            elif k in FLAGS and self.rng.random() < 0.08:
+                c = np.bool_(v)
+            else:
+                c = v
+            ckw[k] = c
+            for a, b in zip(c if isinstance(c, list) else [c], v if isinstance(v, list) else [v]):
+                if type(a) is not type(b):
+                    typed.append(f"{k}:{type(a).__module__}.{type(a).__name__}")
+        try:
+            r = f(self.H, **ckw, index=True)
+        except TypeError as exc:
+            # observed on the unchanged tree: adjacency_tensor hands order + 1 to itertools.permutations, which refuses numpy integers
+            if f is xgi.adjacency_tensor and isinstance(ckw.get("order"), np.integer) and "Expected int as r" in str(exc):
+                self.mon.note("rejected:adjacency_tensor:numpy-integer-order(TypeError)")
+                ckw["order"] = kw["order"]
+                typed = [t for t in typed if not t.startswith("order:")]
+                r = f(self.H, **ckw, index=True)
+            else:
+                raise
+        self.call_failed = False
+        for t in typed:
+            self.mon.note("argtype:" + t)
+        self.last = (f, kw, r, sorted(set(typed))) if typed else None
+        return r
 
     def seen(self, fn, opts):
         self.mon.ev()
@@ -391,6 +478,10 @@ class Battery:
 
     def same(self, fn, trig, call, rs, rd):
         """sparse result tuple rs == dense result tuple rd (arrays and maps)."""
+        self.last = None
+        nfail, self.nfail = self.nfail, 0
+        if nfail:
+            return
         self.mon.note("sparse==dense")
         self.mon.ev()
         a, b = dense(rs[0]), dense(rd[0])
@@ -401,7 +492,8 @@ class Battery:
 
     def noindex(self, fn, trig, call, f, kw, ref):
         """index=False returns the same array as index=True (seeded third of the calls)."""
-        if self.rng.random() > 1 / 3:
+        self.last = None
+        if self.rng.random() > 1 / 3 or self.call_failed:
             return
         self.mon.note("index=False")
         self.mon.ev()
@@ -422,7 +514,7 @@ class Battery:
             trig = self.degen(order) or ("order=None" if order is None else "order=int")
             for sp in (True, False):
                 call = f"incidence_matrix(H, order={order}, sparse={sp}, index=True)"
-                r = xgi.incidence_matrix(self.H, order=order, sparse=sp, index=True)
+                r = self.invoke(xgi.incidence_matrix, order=order, sparse=sp)
                 res[sp] = r
                 self.seen(fn, (order, sp))
                 M, rd, cd = dense(r[0]), r[1], r[2]
@@ -449,7 +541,7 @@ class Battery:
             trig = self.degen(order) or ("order=None" if order is None else "order=int")
             for sp in (True, False):
                 call = f"intersection_profile(H, order={order}, sparse={sp}, index=True)"
-                r = xgi.intersection_profile(self.H, order=order, sparse=sp, index=True)
+                r = self.invoke(xgi.intersection_profile, order=order, sparse=sp)
                 res[sp] = r
                 self.seen(fn, (order, sp))
                 M, cd = dense(r[0]), r[1]
@@ -483,7 +575,7 @@ class Battery:
                     for sp in (True, False):
                         kw = dict(order=order, sparse=sp, s=s, weighted=w)
                         call = f"adjacency_matrix(H, order={order}, sparse={sp}, s={s}, weighted={w}, index=True)"
-                        r = xgi.adjacency_matrix(self.H, **kw, index=True)
+                        r = self.invoke(xgi.adjacency_matrix, **kw)
                         res[sp] = r
                         self.seen(fn, (order, s, w, sp))
                         M = dense(r[0])
@@ -508,7 +600,7 @@ class Battery:
         res = {}
         for sp in (True, False):
             call = f"clique_motif_matrix(H, sparse={sp}, index=True)"
-            r = xgi.clique_motif_matrix(self.H, sparse=sp, index=True)
+            r = self.invoke(xgi.clique_motif_matrix, sparse=sp)
             res[sp] = r
             self.seen(fn, (sp,))
             self._adj_clauses(fn, trig, call, dense(r[0]), r[1], c)
@@ -521,7 +613,7 @@ class Battery:
         for order in ORDERS:
             trig = self.degen(order) or ("order=None" if order is None else "order=int")
             call = f"degree_matrix(H, order={order}, index=True)"
-            K, rd = xgi.degree_matrix(self.H, order=order, index=True)
+            K, rd = self.invoke(xgi.degree_matrix, order=order)
             self.seen(fn, (order,))
             K = np.asarray(K)
             k = self.t.degree(order)
@@ -546,7 +638,7 @@ class Battery:
             for norm in (True, False):
                 trig = dg or f"normalized={norm}"
                 call = f"adjacency_tensor(H, order={order}, normalized={norm}, index=True)"
-                B, rd = xgi.adjacency_tensor(self.H, order, normalized=norm, index=True)
+                B, rd = self.invoke(xgi.adjacency_tensor, order=order, normalized=norm)
                 self.seen(fn, (order, norm))
                 B = np.asarray(B)
                 val = 1 / factorial(order) if norm else 1
@@ -600,7 +692,7 @@ class Battery:
                 for sp in (True, False):
                     kw = dict(order=order, sparse=sp, rescale_per_node=resc)
                     call = f"laplacian(H, order={order}, sparse={sp}, rescale_per_node={resc}, index=True)"
-                    r = xgi.laplacian(self.H, **kw, index=True)
+                    r = self.invoke(xgi.laplacian, **kw)
                     res[sp] = r
                     self.seen(fn, (order, resc, sp))
                     self._lap_clauses(fn, trig, call, dense(r[0]), r[1], exp, True, True)
@@ -627,7 +719,7 @@ class Battery:
                 for sp in (True, False):
                     kw = dict(sparse=sp, rescale_per_node=resc)
                     call = f"multiorder_laplacian(H, {orders}, {ws}, sparse={sp}, rescale_per_node={resc}, index=True)"
-                    r = xgi.multiorder_laplacian(self.H, list(orders), list(ws), **kw, index=True)
+                    r = self.invoke(xgi.multiorder_laplacian, orders=list(orders), weights=list(ws), **kw)
                     res[sp] = r
                     self.seen(fn, (tuple(orders), tuple(ws), resc, sp))
                     self.mon.note("multiorder:weights>=0" if nonneg else "multiorder:negative-weight")
@@ -682,7 +774,7 @@ class Battery:
             for sp in (True, False):
                 kw = dict(weighted=w, sparse=sp)
                 call = f"normalized_hypergraph_laplacian(H, weighted={w}, sparse={sp}, index=True)"
-                r = xgi.normalized_hypergraph_laplacian(self.H, **kw, index=True)
+                r = self.invoke(xgi.normalized_hypergraph_laplacian, **kw)
                 res[sp] = r
                 self.seen(fn, (w, sp, tuple(sorted(map(repr, self.weights.items()))) if w else ()))
                 M = dense(r[0])
@@ -715,6 +807,7 @@ class Battery:
     def run(self):
         for part in (self.incidence, self.adjacency, self.degree, self.intersection, self.clique_motif, self.tensor,
                      self.laplacian, self.multiorder, self.normalized):
+            self.nfail = 0
             part()
 
 
